@@ -32,11 +32,21 @@ type Block struct {
 type Universe struct {
 	Genesis  chainhash.Hash
 	BaseTime time.Time
+	Step     int64 // seconds between consecutive heights
 }
 
 // NewUniverse anchors the universe at the mainnet genesis; timestamps end near now.
 func NewUniverse(maxLen int) *Universe {
-	return &Universe{Genesis: *chaincfg.MainNetParams.GenesisHash, BaseTime: time.Unix(time.Now().Unix()-int64(maxLen+10)*30-600, 0)}
+	// every block of the universe is younger than 24 hours (the service's IsCurrent rule looks at the tip's timestamp:
+	// with a tip older than that it ignores announcements of peers other than its sync peer)
+	step := int64(30)
+	if int64(maxLen+10)*step > 20*3600 {
+		step = 20 * 3600 / int64(maxLen+10)
+		if step < 1 {
+			step = 1
+		}
+	}
+	return &Universe{Genesis: *chaincfg.MainNetParams.GenesisHash, Step: step, BaseTime: time.Unix(time.Now().Unix()-int64(maxLen+10)*step-600, 0)}
 }
 
 // Extend appends n blocks to a chain (branch tag b distinguishes competing branches).
@@ -52,7 +62,7 @@ func (u *Universe) Extend(chain []*Block, n int, b int, bits uint32) []*Block {
 		binary.LittleEndian.PutUint64(seed[:], uint64(b))
 		binary.LittleEndian.PutUint64(seed[8:], uint64(h))
 		mr := sha256.Sum256(seed[:])
-		bh := &wire.BlockHeader{Version: 0x20000000, PrevBlock: prev, MerkleRoot: chainhash.Hash(mr), Timestamp: u.BaseTime.Add(time.Duration(h) * 30 * time.Second), Bits: bits, Nonce: uint32(b*1000003) + uint32(h)}
+		bh := &wire.BlockHeader{Version: 0x20000000, PrevBlock: prev, MerkleRoot: chainhash.Hash(mr), Timestamp: u.BaseTime.Add(time.Duration(int64(h)*u.Step) * time.Second), Bits: bits, Nonce: uint32(b*1000003) + uint32(h)}
 		chain = append(chain, &Block{H: bh, Hash: bh.BlockHash(), Height: h})
 	}
 	return chain
